@@ -87,6 +87,23 @@ def feed_sequence(fn):
     return [label(fn, fn.blocks[b]['term']) for b in blocks]
 
 
+def check_time_window(R, F):
+    """check_time accepts exactly the closed window [ts - fudge, ts + fudge], computed at full width (shared with C10)."""
+    ct = F.fn(T + 'check_time')
+    oks = [b for b, bl in enumerate(ct.blocks) if not bl['cleanup'] for st in bl['stmts'] if st['k'] == 'assign' and st['rv']['k'] == 'agg' and st['rv']['def'].endswith('Result::Ok')]
+    g = paths.dom_guards(ct, oks[0]) if len(oks) == 1 else []
+    NOW, TS = 'TimeSigned::to_unix_time(arg3)', 'TimeSigned::to_unix_time(arg1)'
+    lo = 'Ge(%s,num::saturating_sub(%s,cast(arg2))) not in [0]' % (NOW, TS)
+    hi = 'Le(%s,num::saturating_add(%s,cast(arg2))) not in [0]' % (NOW, TS)
+    alt = 'Le(num::abs_diff(%s,%s),cast(arg2)) not in [0]' % (NOW, TS)
+    alt2 = 'Le(num::abs_diff(%s,%s),cast(arg2)) not in [0]' % (TS, NOW)
+    ok = (lo in g and hi in g and len(g) == 2) or g in ([alt], [alt2])
+    # the fudge is widened, never the difference narrowed
+    casts = [(st['rv']['op']['pl']['ty'], st['rv']['ty']) for bl in ct.blocks for st in bl['stmts'] if st['k'] == 'assign' and st['rv']['k'] == 'cast' and st['rv']['ck'].startswith('IntToInt') and is_place(st['rv']['op'])]
+    widen = all(a == 'u16' and b == 'u64' for a, b in casts)
+    R.require(ok and widen, 'time-window', T + 'check_time', ct.where(), 'Ok iff ts - fudge <= now <= ts + fudge (saturating, u64)', 'check_time accepts under %s with casts %s; expected the closed window [ts - fudge, ts + fudge] in u64' % (g, casts))
+
+
 def check(R, F):
     # ---- (a)
     for path, want in SPEC.items():
@@ -129,16 +146,4 @@ def check(R, F):
     want = {'Gt(cast(arg2),Algorithm::output_size(arg1))', 'Lt(cast(arg2),Ord::max(10_usize,Div(Add(Algorithm::output_size(arg1),1_usize),2_usize)))'}
     R.require(len(errs) == 1 and conds == want, 'mac-size', T + 'check_mac_size', cm.where(), 'FormErr iff size > output or size < max(10, ceil(output/2))', 'check_mac_size tests %s, expected %s' % (sorted(conds), sorted(want)))
     # ---- (d)
-    ct = F.fn(T + 'check_time')
-    oks = [b for b, bl in enumerate(ct.blocks) if not bl['cleanup'] for st in bl['stmts'] if st['k'] == 'assign' and st['rv']['k'] == 'agg' and st['rv']['def'].endswith('Result::Ok')]
-    g = paths.dom_guards(ct, oks[0]) if len(oks) == 1 else []
-    NOW, TS = 'TimeSigned::to_unix_time(arg3)', 'TimeSigned::to_unix_time(arg1)'
-    lo = 'Ge(%s,num::saturating_sub(%s,cast(arg2))) not in [0]' % (NOW, TS)
-    hi = 'Le(%s,num::saturating_add(%s,cast(arg2))) not in [0]' % (NOW, TS)
-    alt = 'Le(num::abs_diff(%s,%s),cast(arg2)) not in [0]' % (NOW, TS)
-    alt2 = 'Le(num::abs_diff(%s,%s),cast(arg2)) not in [0]' % (TS, NOW)
-    ok = (lo in g and hi in g and len(g) == 2) or g in ([alt], [alt2])
-    # the fudge is widened, never the difference narrowed
-    casts = [(st['rv']['op']['pl']['ty'], st['rv']['ty']) for bl in ct.blocks for st in bl['stmts'] if st['k'] == 'assign' and st['rv']['k'] == 'cast' and st['rv']['ck'].startswith('IntToInt') and is_place(st['rv']['op'])]
-    widen = all(a == 'u16' and b == 'u64' for a, b in casts)
-    R.require(ok and widen, 'time-window', T + 'check_time', ct.where(), 'Ok iff ts - fudge <= now <= ts + fudge (saturating, u64)', 'check_time accepts under %s with casts %s; expected the closed window [ts - fudge, ts + fudge] in u64' % (g, casts))
+    check_time_window(R, F)
